@@ -205,6 +205,14 @@ PROPS["C11"] = {
     "assumptions": [],
 }
 
+PROPS["C18"] = {
+    "level": "proof",
+    "ground": [("ground.effects", "check_c18")],
+    "bounded": [("ground.history", "check")],
+    "technique": "frame conditions (no write to process-wide state) checked statically per reachable function over an over-approximated call graph; bounded history replay with state snapshots as stand-in for aliasing the frame analysis cannot see",
+    "assumptions": [],
+}
+
 # ---------------------------------------------------------------------------------------------
 # level texts / notes (MANIFEST)
 _T = {
@@ -238,6 +246,8 @@ _T = {
          "bounded: gaps from fixed representative sets, tables of at most 6 entries; unsigned formats (before 3.8 in xdis's classes) are not exercised with decreasing lines (the format cannot express them; Code3 cannot know whether it serves 3.6/3.7); Code15 proper (1.5) raises AttributeError in freeze() and is outside the property's quantifier."),
  "C11": ("Exception escape is proved for load_module_from_file_object: for the magic word of every final release, every PyPy magic of the corpus, every other magic in xdis's own tables, the dropbox magics and unknown words, for all file contents of at least 50 bytes (what load_module guarantees) and whatever the code readers do - each external reader may raise an exception of unknown class at its call - the function returns a 7-tuple (or the dropbox decoder's result) or raises ImportError, and closes nothing twice; a frame obligation per function reachable from load_module (151, over an over-approximated call graph) shows no exec/eval/compile/dynamic import/file-system write primitive. Termination, memory and the unmarshaller's own behaviour on corrupt data are covered by a bounded hostile-input sweep (prefixes, byte flips, insertions, adversarial lengths and references, deep nesting, every magic word) under time and address-space limits with CPython audit hooks.",
          "KeyboardInterrupt/SystemExit not modelled; load_module's size check and open() are assumed to see the same file (no race); RecursionError raised inside the readers is converted to ImportError like any other exception (counts as failing cleanly); static frame analysis recognises primitives by spelling; the unmarshaller's termination on hostile input is bounded evidence only."),
+ "C18": ("History independence is decided as a frame condition: for each of the 235 functions reachable from the public operations (load_module, disassemble_file, get_opcode / get_opcode_module, make_std_api, marsh dump(s)/load(s), load_code, Bytecode, the label and line-start finders) one obligation shows that its body writes no module-level or class-level container, no mutable default argument (also not by letting it escape into an attribute), keeps no memo (@lru_cache) and patches no table except by save/restore in a finally block; remap_opcodes is the documented exception. Writes through aliases (a module's table stored in an instance attribute and mutated there) are outside the static check and are covered by the bounded history replay: a 97-operation catalogue, each operation alone in a fresh interpreter vs inside random sequences, with digests of every process-wide container before and after each operation.",
+         "call graph over-approximated by name (see frames.ASSUMPTIONS); import-time table construction (init_opdata, fields2copy) is not reachable from the public operations and is not checked; aliasing: bounded evidence only."),
  "C14": ("The integer paths of xdis.marsh are proved for every int of any size: w_long/w_short/w_long64 append exactly the little-endian words that read back (two's complement) to the value; dump_int picks 'i'/'I' by range; dump_long writes 'l', the signed digit count and the 15-bit digits of |x| (loop invariants over a positional-notation spec with an induction lemma: the digits sum back to |x|, top digit non-zero, all digits < 2**15); the fast reader's _r_short/_r_long/_r_long64 are proved to decode the same words. Text, float, complex and container writers/readers are compared with the marshal of hosts 3.8-3.13 by a bounded differential in both directions.",
          "the byte sink is a ghost sequence of everything written through self._write; chr()/str concatenation modelled for code points < 256; load_long's accumulation (x | d << 15 i with symbolic shift) and all non-integer paths are bounded only; bytes-assembly in dumps() is bounded only."),
  "C13": ("write_bytecode_file is proved, for the magic of every final CPython release 1.3-3.13 and all timestamps/source sizes, to write exactly the header that the C06-verified reader decodes back to the same (magic, flags 0, timestamp, size), followed by the marshaller's bytes and nothing else, to the path given, and to close the file; out-of-range header words raise. _Marshaller.dump_code3 is proved to emit the fields of a 3.0-3.10 code object in the order and width of the layout the reader t_code is verified against (C01), and to refuse 3.11+ objects; w_long/w_short/dump_long as in C14. Whether the rewritten file is the same program is judged by the target interpreters (2.7, 3.6-3.13) and by xdis re-reading it, on 13 programs per version: bounded.",
